@@ -354,6 +354,8 @@ static int alloc_ht(flatcc_builder_t *B)
     B->vd_end = sizeof(vtable_descriptor_t);
     size = field_size * FLATCC_BUILDER_MIN_HASH_COUNT;
     if (B->alloc(B->alloc_context, buf, size, 1, flatcc_builder_alloc_ht)) {
+        /* No hash table, hence no null descriptor: alloc_ht runs again (and asserts vd_end == 0) on the next attempt, also after reset. */
+        B->vd_end = 0;
         return -1;
     }
     while (size * 2 <= buf->iov_len) {
